@@ -1,4 +1,5 @@
 import ParsecVerif.Proofs.MaxHeapPool
+import ParsecVerif.Proofs.MaxHeapShape
 import ParsecVerif.Proofs.HbBufferBest
 /-!
 # C35 — task buffers and heaps keep every task and prefer the best
@@ -17,7 +18,7 @@ Buffers
 * `C35_macro_is_micro` — a step of the cooperative scheduler is a run of model steps.
 
 Heaps (any script of create / insert / remove / split_and_steal on a pool of heaps, < 2^32 calls)
-* `C35_heap_shape` — every live heap is the left-complete tree with `size` nodes; `C35_heap_nav_defined`:
+* `C35_heap_shape`, `C35_heap_leftComplete` — every live heap is the left-complete tree with `size` nodes; `C35_heap_nav_defined`:
   so the bit navigation of remove / split never dereferences NULL (the operations are defined).
 * `C35_heap_order` — the top has the highest priority of the heap and `heap->priority` is the top's.
 * `C35_heap_conservation` — tasks in the heaps ⊎ returned tasks = inserted tasks.
@@ -187,6 +188,14 @@ theorem C35_heap_shape (n : Nat) (ops : List MaxHeap.Op) (hl : ops.length < 2 ^ 
     Shape h.size h.t ∧ h.t.size = h.size :=
   ⟨(C35_heap_invariant n ops hl i h hh).shape, Shape_size _ _ (C35_heap_invariant n ops hl i h hh).shape⟩
 
+/-- the same in textbook terms: a non-empty live heap is a complete binary tree — every level above the
+    last (depth `log2 size`) is full and the last level is filled from the left (`LeftComplete`,
+    `Perfect` are the usual recursive definitions, independent of the size arithmetic of `Shape`) -/
+theorem C35_heap_leftComplete (n : Nat) (ops : List MaxHeap.Op) (hl : ops.length < 2 ^ 32)
+    (i : Nat) (h : Heap) (hh : (MaxHeap.run (MaxHeap.init n) ops).heaps[i]? = some (some h)) (h0 : h.size ≠ 0) :
+    LeftComplete h.size.log2 h.t :=
+  shape_leftComplete h.t h.size (C35_heap_invariant n ops hl i h hh).shape h0
+
 /-- … so the bit navigation is defined: on a non-empty heap satisfying the invariant, remove and
     split_and_steal never reach a NULL child on their walk (the model's `none` = a NULL dereference /
     failed assertion in the C code) -/
@@ -257,6 +266,10 @@ example : (remove exHeap).map (fun o => (o.ret, o.heap.map (·.t))) =
 
 example : (MaxHeap.run (MaxHeap.init 2) [.new 0, .ins 0 ⟨4, 1⟩, .ins 0 ⟨8, 2⟩, .ins 0 ⟨6, 3⟩, .split 0 1, .rem 1]).returned
     = [⟨4, 1⟩, ⟨8, 2⟩] := by decide
+
+/-- a reachable pool with two live heaps (the hypotheses of `C35_heap_shape` … `C35_heap_conservation`) -/
+example : ∃ h g, (MaxHeap.run (MaxHeap.init 2) [.new 0, .ins 0 ⟨4, 1⟩, .ins 0 ⟨8, 2⟩, .ins 0 ⟨6, 3⟩, .ins 0 ⟨6, 4⟩, .split 0 1]).heaps
+    = [some h, some g] ∧ h.size = 1 ∧ g.size = 2 ∧ h.t.root? = some ⟨6, 3⟩ := ⟨_, _, rfl, rfl, rfl, rfl⟩
 
 end Heaps
 end ParsecVerif.C35
